@@ -24,7 +24,7 @@ def classStr : SiteClass → String
 def digits (l : List IARF) : String :=
   String.ofList ((IARF.all.filter (fun v => l.contains v)).map (fun v => Char.ofNat (48 + v.code)))
 
-def valOfDigits (s : String) : Val :=
+def valOfDigits (s : String) : SpVal :=
   let a := s.toList.toArray
   fun i => match a[i]? with
     | some c => (IARF.ofCode (c.toNat - 48)).getD .ignore
